@@ -894,3 +894,13 @@ Example guards_satisfiable :
   print_expr (simplify_bool_prefix w_all_rules) = "x >= 3 && x >= y || (x == 2 || ((x >= y) || k == l))" /\
   print_expr (simplify_bool w_all_rules) = "x >= 3 && x >= y || (x == 2 || ((x >= y) || k == l))".
 Proof. vm_compute. repeat split. Qed.
+
+(* when the hasFloats flag is NOT raised for float-typed operands (what happens for operands whose type is a
+   type parameter with a float constraint: typep.HasFloatProp looks for *types.Basic), the rewriting is unsound *)
+Definition w_nan_env : env := env_of [("x", VFloat FNaN); ("y", VFloat (FFin (Qmake 1 1)))] [].
+Definition w_not_lt : expr := EUnary UNot (EParen (EBinary OLt (EIdent "x" TFloat) (EIdent "y" TFloat))).
+Theorem float_flag_missed_refuted :
+  exists en e, env_ok en /\ typeof e = Some TBool /\ has_floats e = true /\
+    print_expr (simp false e) = "x >= y" /\
+    eval en e = Some (RVal (VBool true), []) /\ eval en (simp false e) = Some (RVal (VBool false), []).
+Proof. exists w_nan_env, w_not_lt. split; [apply env_of_ok|]. vm_compute. repeat split. Qed.
